@@ -6,6 +6,7 @@ from itertools import chain
 from warnings import warn
 
 from .numbers.optionnumbers import OptionNumber
+from .optiontypes import OpaqueOption
 from .error import UnparsableMessage
 
 
@@ -162,10 +163,15 @@ class Options:
         else:
             return "<div>No options</div>"
 
-    def decode(self, rawdata):
+    def decode(self, rawdata, *, opaque=False):
         """Passed a CoAP message body after the token as rawdata, fill self
         with the options starting at the beginning of rawdata, an return the
-        rest of the message (the body)."""
+        rest of the message (the body).
+
+        With ``opaque`` set, option values are not interpreted according to
+        the CoAP option number registry but kept as opaque options; this is
+        used for signaling messages, whose option numbers have per-code
+        meanings."""
         option_number = OptionNumber(0)
 
         while rawdata:
@@ -181,7 +187,10 @@ class Options:
             if len(rawdata) < length:
                 raise UnparsableMessage("Option announced but absent")
             try:
-                option = option_number.create_option(decode=rawdata[:length])
+                if opaque:
+                    option = OpaqueOption(option_number, rawdata[:length])
+                else:
+                    option = option_number.create_option(decode=rawdata[:length])
             except UnicodeDecodeError as e:
                 raise UnparsableMessage("String option is not valid UTF-8") from e
             self.add_option(option)
